@@ -181,7 +181,9 @@ CallFailed(e) ==
         ELSE IF \E i \in 1..Len(e.rp) : e.rp[i].mp >= NeedBits(ref.val) /\ (~e.rp[i].r.ok \/ (~NumUnranked(e.rp[i].r.val) /\ ~Match(e.rp[i].r.val, ref.val)))
              THEN {"C02.ResultIsRefAllReps"} ELSE {})
   \cup (IF Len(e.rs) = 1 THEN {} ELSE {"C20.Pure"})
-  \cup (IF Len(e.rr) = 1 THEN {} ELSE {"C20.RepInvariant"})
+  \* (arithmetic on whole numbers near 2^53 / 2^63 / 2^64 is exact only "to within the precision of the operands": there the
+  \*  result legitimately depends on the mantissa precision of the representation; judged by C02.ResultIsRefAllReps instead)
+  \cup (IF Len(e.rr) = 1 \/ (e.api \in NumBinArith /\ \E i \in 1..Len(e.a) : IsNumK(e.a[i]) /\ BigLm(e.a[i].v)) THEN {} ELSE {"C20.RepInvariant"})
   \cup (IF e.r.ok /\ ~WellFormedR(e.r) THEN {"C06.WellFormed"} ELSE {})
   \cup (IF e.r.ok /\ AllWhollyKnown(e.a) /\ ~WhollyKnown(e.r.val) /\ e.api \in AllOps THEN {"C01.KnownInKnownOut"} ELSE {})
   \cup (IF e.r.ok /\ AllWhollyKnown(e.a) /\ e.api \in NeverNullOps /\ e.r.val.st = "null" THEN {"C01.NeverNull"} ELSE {})
